@@ -252,11 +252,12 @@ const LIBNAMED: [&str; 20] = [
 ];
 
 /// programs linted with the Luau library (table.clone exists): loop variables spelled like the fields they sit next to
-const LUAU_NAMED: [&str; 4] = [
+const LUAU_NAMED: [&str; 5] = [
     "local function lastSeen(source)\n    local seen = {}\n    for key, value in pairs(source) do\n        seen.key = value\n    end\n    return seen\nend\nreturn lastSeen\n",
     "local function copy(source)\n    local out = {}\n    for key, value in pairs(source) do\n        out[key] = value\n    end\n    return out\nend\nreturn copy\n",
-    "local out = {}\nfor i, v in ipairs(list) do\n  out[i] = v\nend\nprint(out.i, out.v)\n",
-    "local function index(list)\n    local byName = {}\n    for i, v in ipairs(list) do\n        byName.v = i\n        byName.i = v\n    end\n    return byName\nend\nreturn index\n",
+    "local out = {}\nfor i, v in ipairs(list) do\n  out.i = v\nend\nprint(out.i, out.v)\n",
+    "local function index(list)\n    local byName = {}\n    for k, v in pairs(list) do\n        byName.k = v\n    end\n    return byName\nend\nreturn index\n",
+    "local function first(items)\n    local res = {}\n    for idx, item in ipairs(items) do\n        res.idx = item\n    end\n    return res, items.idx\nend\nreturn first\n",
 ];
 
 const RESERVED: [&str; 12] = ["self", "_G", "_", "type", "typeof", "require", "game", "script", "workspace", "plugin", "shared", "_ENV"];
@@ -272,7 +273,7 @@ pub fn generate_c14(seed: u64, n: usize, _thorough: bool) -> Cases {
     for i in 0..n {
         let mut r = rng.fork(i as u64);
         let (src, origin) = if r.chance(1, 6) { ((*r.pick(&LIBNAMED)).to_string(), "library-named") }
-            else if r.chance(1, 8) { ((*r.pick(&LUAU_NAMED)).to_string(), "luau-library") }
+            else if r.chance(1, 6) { ((*r.pick(&LUAU_NAMED)).to_string(), "luau-library") }
             else { pick_program(&mut r, &fx) };
         let ck = if origin == "luau-library" { &ck_luau } else { &ck_lua51 };
         let (ast, ds) = match lint(ck, &src) { Some(x) => x, None => continue };
